@@ -72,7 +72,20 @@ ShadowRet(outerTy, how, where) ==
       use == IF outerTy = "str" THEN Shout(5, Bin("minus", call, Num(1))) ELSE Shout(5, [k |-> "mcall", o |-> call, m |-> "len", as |-> <<>>])
   IN IF where = "top" THEN <<Make(1, "n", outerV), f, use, Shout(6, Var("n"))>>
      ELSE <<Make(1, "n", outerV), [k |-> "block", id |-> 7, b |-> <<f, use>>], Shout(6, Var("n"))>>
-Programs == {ShadowRet(ty, how, wh) : ty \in {"str", "num"}, how \in {"param", "local", "expr"}, wh \in {"top", "block"}} \cup
+\* RECTDZ: a nested function captures a local of its enclosing RECURSIVE function and is called by a deeper activation
+\* before that activation's own `make` has run.  The variable it names is the deeper activation's (not made yet: the
+\* run ends with the use-before-declaration error), never the slot of the older activation further down the stack.
+RecTdz(kind) ==
+  LET v0 == IF kind = "push" THEN [k |-> "arr", es |-> <<Var("n")>>] ELSE Var("n")
+      gbody == CASE kind = "read" -> <<Ret(6, Var("v"))>>
+                 [] kind = "assign" -> <<Set(6, "v", Bin("add", Var("v"), Num(100))), Ret(7, Var("v"))>>
+                 [] kind = "push" -> <<ExprS(6, [k |-> "mcall", o |-> Var("v"), m |-> "push", as |-> <<Num(99)>>]), Ret(7, Var("v"))>>
+  IN <<Def(1, "f", <<"n">>, <<If(2, Bin("na", Var("n"), Num(0)), <<Ret(3, G("g", <<>>))>>),
+                              Make(4, "v", v0), Def(5, "g", <<>>, gbody),
+                              Make(8, "r", G("f", <<Bin("minus", Var("n"), Num(1))>>)), Shout(9, Var("v")), Ret(10, Var("r"))>>),
+       Shout(11, G("f", <<Num(1)>>))>>
+Programs == {RecTdz(kd) : kd \in {"read", "assign", "push"}} \cup
+            {ShadowRet(ty, how, wh) : ty \in {"str", "num"}, how \in {"param", "local", "expr"}, wh \in {"top", "block"}} \cup
             {Prog(rec, c, kind, order, var) : rec \in {"self", "mutual", "flat", "self-write"}, c \in {"block", "function", "loop", "if", "nestedfun", "called-deep"},
                                              kind \in {"flat", "rec", "reads-v"}, order \in {"before", "after"}, var \in {"none", "shadow"}}
 VARIABLES prog, m, fuel, hist
